@@ -555,7 +555,7 @@ Definition chk_step_C11 : step_chk := fun prev x o ob =>
       | _ => rows_eqb (sn_rows prev) (sn_rows post) && strs_eqb (sn_colls prev) (sn_colls post)
       end
   | SPurge => strs_eqb (sn_colls prev) (sn_colls post)
-  | SDump _ _ | SQuery _ _ => rows_eqb (sn_rows prev) (sn_rows post) && strs_eqb (sn_colls prev) (sn_colls post)
+  | SDump _ _ | SQuery _ _ | SPutDDoc _ _ _ | SDelDDoc _ _ | SView _ _ _ _ => rows_eqb (sn_rows prev) (sn_rows post) && strs_eqb (sn_colls prev) (sn_colls post)
   | SExpire | SReopen => strs_eqb (sn_colls prev) (sn_colls post)
   end.
 
@@ -749,3 +749,56 @@ Definition chk_step_C19 : step_chk := fun prev x o ob =>
 
 Definition chk_C19_kv (t : scase * list ostep) : bool :=
   walk chk_step_C19 (snap0 (fst t)) (sc_steps (fst t)) (snd t).
+
+(* ------------------------------------------------------------------------------------------ *)
+(* C12: a non-stale view query = the map function applied to the current documents (as a key-value
+   read-back shows them), ordered by JSON collation of the key, then document id, then filtered     *)
+
+Definition row_of_fevent (f : fevent) : row :=
+  mkRow (match f_op f with FDeletion => None | _ => Some (f_body f) end) (f_json f) (f_cas f) (f_exp f)
+        (if f_xbit f then XObj (f_xattrs f) else XNull)
+        (match f_op f with FDeletion => true | _ => false end) (f_rev f).
+
+Definition fresh_index (s : snapshot) (coll : string) (mapid : N) : list vrow :=
+  flat_map (fun e : (string * string) * obsrow =>
+              if String.eqb (fst (fst e)) coll then
+                match o_dump (snd e) with
+                | Some f => let r := row_of_fevent f in
+                            if mappable r then map (fun kv => (snd (fst e), fst kv, snd kv)) (mapfn mapid (snd (fst e)) r) else []
+                | None => []
+                end
+              else []) (sn_rows s).
+
+(* the design documents in force, from the PutDDoc / DeleteDDoc / DropDataStore calls that succeeded *)
+Definition ddocs := list ((string * string) * list (string * N)).
+
+Definition ddocs_after (dd : ddocs) (o : sop) (r : resp) : ddocs :=
+  match o, r with
+  | SPutDDoc c d views, ROk => aset sspair_eqb (c, d) views dd
+  | SDelDDoc c d, ROk => aremove sspair_eqb (c, d) dd
+  | SDropColl c, ROk => filter (fun e : (string * string) * list (string * N) => negb (String.eqb (fst (fst e)) c)) dd
+  | _, _ => dd
+  end.
+
+Definition chk_step_C12 (dd : ddocs) : step_chk := fun prev x o ob =>
+  match o with
+  | SView c d v p =>
+      let mapid := match alookup sspair_eqb (c, d) dd with Some views => alookup String.eqb v views | None => None end in
+      match mapid, os_resp ob with
+      | Some m, RRows rows =>
+          if vp_stale p then true
+          else strs_eqb' rows (map render_vrow (select_rows p (fresh_index prev c m)))
+      | None, RErr EMissing => true
+      | _, _ => false
+      end
+  | _ => true
+  end.
+
+Fixpoint walk_dd (dd : ddocs) (prev : snapshot) (steps : list (sctx * sop)) (obs : list ostep) : bool :=
+  match steps, obs with
+  | [], [] => true
+  | (x, o) :: ss, ob :: os => chk_step_C12 dd prev x o ob && walk_dd (ddocs_after dd o (os_resp ob)) (os_snap ob) ss os
+  | _, _ => false
+  end.
+
+Definition chk_C12_kv (t : scase * list ostep) : bool := walk_dd [] (snap0 (fst t)) (sc_steps (fst t)) (snd t).
